@@ -300,22 +300,12 @@ def rule_parse(rep, idx):
         rep.add('RA', '%s:[%d,%d]' % (sp, lo, hi), got == want and not I.ub, pos(f.node) + ' hexasm::Parser::parseInteger',
                 'literal %s n, n in [%d,%d]: parseInteger yields %r, expected int32 range %r%s' % (
                     '-' if sp == 'minus' else '', lo, hi, got, want, ('; UB: %s' % I.ub) if I.ub else ''))
-    # the lexer stores the literal as an unsigned 32-bit value obtained with strtoul base 10
+    # the lexer stores the literal in an unsigned 32-bit member (the radix is judged on the interpreted decimal path below)
     lexf = idx.func('hexasm::Lexer::readToken')
-    ok = False
-    radix = 'not found'
-    for c in cast.calls_in(lexf.body):
-        if callee_of(c)[1] in ('strtoul', 'stoul', 'strtoull'):
-            a = cast.call_args(c)
-            base = cast.const_int(a[2], idx) if len(a) > 2 else None
-            ok = (base == 10)
-            radix = base
     fld = [x for x in idx.record('hexasm::Lexer').fields if x['name'] == 'value']
-    ok = ok and bool(fld) and qt(fld[0]) in ('unsigned int', 'unsigned', 'uint32_t')
-    rep.add('RA', 'lexer:number-is-unsigned-base-10', ok, pos(lexf.node) + ' hexasm::Lexer::readToken',
-            'number token converted with strtoul(..., 10) into an unsigned 32-bit member' if ok else
-            'the literal is not read as an unsigned base-10 32-bit value (conversion radix %s: with radix 0 a zero-padded decimal such as 010 is '
-            'read as octal, and 08 is cut at the 8)' % radix)
+    ok = bool(fld) and qt(fld[0]) in ('unsigned int', 'unsigned', 'uint32_t')
+    rep.add('RA', 'lexer:number-is-unsigned-32-bit', ok, pos(lexf.node) + ' hexasm::Lexer',
+            'number token kept in an unsigned 32-bit member' if ok else 'the literal is not kept in an unsigned 32-bit member')
     # the lexer delivers every decimal literal 0 .. 2^32-1 unchanged (no rejection, no clamping): its number branch is interpreted with
     # strtoul's result ranging over value classes that are split until every branch is uniform
     from .. import robust
@@ -327,6 +317,11 @@ def rule_parse(rep, idx):
         key = 'lexer:literal[%d,%d]' % (lo, hi)
         try:
             r = robust.lexer_number(idx, 'hexasm', lo, hi)
+        except robust.WrongRadix as e:
+            rep.add('RA', key, False, e.at + ' hexasm::Lexer::readToken',
+                    'a decimal literal is converted with radix %d: with radix 0 a zero-padded decimal such as 0000000100 is read as octal (64) '
+                    'and 08 is cut at the 8; with 16 or 8 every multi-digit decimal changes value' % e.radix)
+            continue
         except AnalysisBroken as e:
             rep.undecided('RA', key, 'lexer number branch outside the engine: %s' % e, pos(lexf0.node))
             continue
